@@ -10,7 +10,7 @@ def wire_constructions(prog, adt_path):
     out = []
     for (bid, bb, i, rv) in prog.constructions(adt_path):
         b = prog.facts.body(bid)
-        if "pubsub_proto" in bid or b.file.startswith("/") or "_serde" in bid or "::_::" in bid:
+        if b.file.startswith("/") or "_serde" in bid or "::_::" in bid:
             continue
         out.append((bid, bb, i, rv))
     return out
